@@ -146,9 +146,13 @@ class Built:
         self.starts = []        # leaf indices in start order
         self.tick = 0
         self.pending = []       # (due, leaf index, ok)
+        self.finals = {}
         self.root = self.build(spec)
         self.finished = []
         self.root['finish_cb_'] = lambda ok, why, trace: self.finished.append(int(bool(ok)))
+        for i, nd in enumerate(self.nodes):
+            if 'final_cb_' in nd:
+                nd['final_cb_'] = lambda i=i: self.finals.__setitem__(i, self.finals.get(i, 0) + 1)
 
     def reason(self):
         r = self.w.it.new_record(NS + 'Action::Reason')
@@ -565,6 +569,12 @@ def check_tree(prog, spec, scenarios=True):
         return 'after the root has finished %d descendant(s) are still running or paused' % len(b.underway())
     if w.queue:
         return 'deferred notifications are left in the loop after the tree has come to rest'
+    ri = b.nodes.index(b.root)
+    if b.finished:
+        if 'final_cb_' in b.root and b.finals.get(ri, 0) != 1:
+            return 'the final hook of the root runs %d time(s) in a run that finished' % b.finals.get(ri, 0)
+        if b.root.get('result_') != (1 if b.finished[0] else 2):
+            return 'result() of the finished root does not say %s' % ('success' if b.finished[0] else 'failure')
     if not scenarios:
         return None
     # stop after k leaf events: nothing is delivered afterwards, nothing is left under way
@@ -591,6 +601,8 @@ def check_tree(prog, spec, scenarios=True):
             return 'stop() after %d leaf event(s): %d descendant(s) are left running or paused' % (k, len(b2.underway()))
         if b2.step():
             return 'stop() after %d leaf event(s): a leaf of the stopped tree is still waiting to deliver its result' % k
+        if 'final_cb_' in b2.root and b2.finals.get(b2.nodes.index(b2.root), 0) != 1:
+            return 'stop() after %d leaf event(s): the final hook of the root has run %d time(s) where once per run is due' % (k, b2.finals.get(b2.nodes.index(b2.root), 0))
     # reset after the run, run again: like a freshly built tree
     if b.finished:
         first = (list(b.finished), list(b.starts))
@@ -623,7 +635,7 @@ def r11(ctx, prog):
              'levels deep; repeat / loop / loop-if with per-run outcomes) are built through the public API on the syntax trees of flow::Action and the composites and run on a model of '
              'the loop (deferred notifications, cancellation).  For each tree: the root finishes exactly as the reference evaluator says (once, with that result, or never), the leaves are '
              'started in the reference order, nothing is left running, paused or queued at rest; stop() after every number of leaf events silences the tree (no finish callback, no '
-             'descendant under way, no leaf still waiting); reset() after the run makes every action idle and a second run repeats the first; pause() placed between a leaf\'s finish and the delivery of its notification, followed by resume(), does not change the outcome' % len(ts), floor=1)
+             'descendant under way, no leaf still waiting); reset() after the run makes every action idle and a second run repeats the first; pause() placed between a leaf\'s finish and the delivery of its notification, followed by resume(), does not change the outcome; a time-out on the root that fires while the tree is at work finishes it once, with failure, and leaves nothing below it running; pause() leaves nothing running and disarms the time-out, resume() re-arms it and the run ends as the undisturbed one; the final hook runs once per run and result() agrees with the callback' % len(ts), floor=1)
     if not any(g.name == NS + 'DummyAction::onStart' for g in prog.funcs.values()):
         from tbxlint.facts import extract
         prog = extract('ALL')
@@ -631,7 +643,7 @@ def r11(ctx, prog):
     n = 0
     for spec in ts:
         n += 1
-        why = check_tree(prog, spec) or check_pause(prog, spec)
+        why = check_tree(prog, spec) or check_pause(prog, spec) or check_timeout(prog, spec) or check_plain_pause(prog, spec)
         if why is not None:
             bad = (spec, why)
             break
@@ -675,4 +687,71 @@ def check_pause(prog, spec):
             return 'pause() between leaf event %d and the delivery of its notification, then resume(): the root finishes %s where the undisturbed run finishes %s' % (k + 1, fin(b.finished), fin(ref.finished))
         if b.finished and b.underway():
             return 'pause()/resume() around leaf event %d: %d descendant(s) are left running or paused after the root finished' % (k + 1, len(b.underway()))
+    return None
+
+
+def check_plain_pause(prog, spec):
+    """pause() after k leaf events: nothing stays running and the time-out timer is disarmed; resume() and the run ends as the undisturbed one"""
+    ref = Ref(spec)
+    ref.run()
+    w0 = World(prog)
+    b0 = Built(w0, spec)
+    n = b0.run()
+    for k in range(0, n + 1):
+        w = World(prog)
+        b = Built(w, spec)
+        w.call(b.root, 'setTimeout', [1000])
+        done = {'x': False}
+
+        def hook(bb, i, k=k, done=done):
+            if i == k and not done['x'] and bb.root.get('state_') == 1:
+                done['x'] = True
+                bb.w.call(bb.root, 'pause')
+                bb.w.drain()
+                running = [nd for nd in bb.nodes if nd.get('state_') == 1]
+                armed = [t for t in bb.w.timers if t.get('enabled')]
+                if running:
+                    done['bad'] = 'after pause() %d action(s) of the tree are still running' % len(running)
+                elif armed:
+                    done['bad'] = 'after pause() the time-out timer of the root is still armed'
+                bb.w.call(bb.root, 'resume')
+                bb.w.drain()
+                if bb.root.get('state_') == 1 and not [t for t in bb.w.timers if t.get('enabled')]:
+                    done['bad'] = done.get('bad') or 'after resume() the time-out timer of the root is not armed again'
+        b.run(hook=hook)
+        if w.it.faults:
+            return 'pause()/resume() after %d leaf event(s): %s' % (k, w.it.faults[0])
+        if done.get('bad'):
+            return 'pause() after %d leaf event(s): %s' % (k, done['bad'])
+        if (b.finished, b.starts) != (ref.finished, ref.starts):
+            return 'pause()/resume() after %d leaf event(s): the run ends %s / starts %s where the undisturbed run gives %s / %s' % (k, fin(b.finished), b.starts, fin(ref.finished), ref.starts)
+    return None
+
+
+def check_timeout(prog, spec):
+    """a time-out on the root that fires while the tree is still at work: the root finishes once, with failure, and nothing below it is left running"""
+    w = World(prog)
+    b = Built(w, spec)
+    w.call(b.root, 'setTimeout', [1])
+    w.call(b.root, 'start')
+    w.drain()
+    if w.it.faults:
+        return 'with a time-out set: %s' % w.it.faults[0]
+    if b.finished:
+        if [t for t in w.timers if t.get('enabled')]:
+            return 'the root finished at once and its time-out timer is still armed'
+        return None
+    if not w.fire_next_timer():
+        return 'the root is running with a time-out set and no timer is armed'
+    w.drain()
+    if w.it.faults:
+        return 'when the time-out of the root fires: %s' % w.it.faults[0]
+    if b.finished != [0]:
+        return 'when the time-out of the root fires it finishes %s where one failure is due' % fin(b.finished)
+    if b.underway():
+        return 'the root has finished by its time-out and %d descendant(s) are still running or paused' % len(b.underway())
+    if b.step():
+        return 'the root has finished by its time-out and a leaf below it is still waiting to deliver its result'
+    if len(b.finished) != 1:
+        return 'after the time-out the finish callback is invoked again'
     return None
